@@ -1872,7 +1872,8 @@ pub fn event_hook(id: u32, arg: usize) {
     if (verif_rt::IN_USE_WRITE_BASE..verif_rt::IN_USE_WRITE_BASE + 256).contains(&id) {
         // A node's `in_use` word was written. Anything but USED (1) written by the owner is the
         // release of the node, however the code does it (cooldown or not).
-        let new = id - verif_rt::IN_USE_WRITE_BASE;
+        // (the low two bits are the state; the rest of the word counts the node's claims)
+        let new = (id - verif_rt::IN_USE_WRITE_BASE) & 3;
         if new == 1 {
             return;
         }
